@@ -63,7 +63,7 @@ def preload():
         importlib.import_module(m)
 
 
-EXPECTED_PROBES = {t: ["accept:simgen", "reject:simgen", "simgen_second_check_in_category_rejects", "accept:dbc", "accept:can_c", "accept:cpp", "accept:nop", "reject:dbc", "reject:can_c", "reject:cpp",
+EXPECTED_PROBES = {t: ["accept:simgen", "reject:simgen", "simgen_second_check_in_category_rejects", "simgen_check_rejects_by_attempt", "returned_file_in_subdirectory", "accept:dbc", "accept:can_c", "accept:cpp", "accept:nop", "reject:dbc", "reject:can_c", "reject:cpp",
                        "reject:nop", "reject_after_successful_generation", "reject_plugin_check", "reject_general_check",
                        "reject_in_module", "manager_reused_second_generator", "via_cli", "via_api", "stale_c_files_present",
                        "write_fault_fired", "outdir_absent", "mangled_existing_file:crlf", "regenerated_over_mangled_file", "sibling_of_existing_file"] for t in TIERS}
@@ -174,7 +174,7 @@ def shape_for(rng, gen):
             fields.append({"name": fn, "id": fi, "type": t})
         sname = names.struct()
         decls.append({"kind": "struct", "name": sname, "fields": fields})
-        buses = rng.sample(["can1", "can2", None], rng.randint(1, 2))
+        buses = rng.sample(["can1", "can2", None, "chassis/front"], rng.randint(1, 2))     # a bus name may contain '/': the file lands in a sub-directory
         ids = rng.sample(range(1, 2040), 5)
         for bi in range(weighted(rng, [(1, 4), (2, 3), (3, 2), (4, 1)])):
             fl = [["id", ids[bi]]]
@@ -362,7 +362,12 @@ class Sys_:
                         if r.is_err() and rejected is None:
                             rejected = str(r.err())[:120]
                     except Exception as e:
-                        crashed = crashed or f"{type(e).__name__}: {str(e)[:100]}"
+                        if type(e).__name__ == "ResultAttemptError":
+                            # the check rejected by propagating error(...).attempt(): in this code base that IS how an
+                            # Err travels (run_checks/verify are @catch functions)
+                            rejected = rejected or str(getattr(e, "error", e))[:120]
+                        else:
+                            crashed = crashed or f"{type(e).__name__}: {str(e)[:100]}"
         if crashed is not None:
             # a check that raises: which of 'crash' and 'reject' comes first depends on check order; not judged
             return "crashed", crashed
@@ -587,10 +592,12 @@ def _execute(sysm, clock, ops, work, tier, probes, tr, distinct):
                     if names:
                         target = names[pick % len(names)]
                         applied = True
-                plug_cfg.append((cat, target))
+                plug_cfg.append((cat, target, "attempt" if (pick >> (3 + ci)) & 1 else "return"))
             if rej is not None and rej > 0 and applied and cats[rej] in cats[:rej]:
                 probes["simgen_second_check_in_category_rejects"] += 1
-            inj = "plug:" + ",".join(f"{c}{'!' if t else ''}" for c, t in plug_cfg)
+            inj = "plug:" + ",".join(f"{c}{'!' if t else ''}{'^' if t and st == 'attempt' else ''}" for c, t, st in plug_cfg)
+            if any(t and st == "attempt" for c, t, st in plug_cfg):
+                probes["simgen_check_rejects_by_attempt"] += 1
         elif inj:
             decls, applied = inject(rng, decls, inj)
             if inj == "struct_without_fields" and applied:
@@ -678,7 +685,7 @@ def _execute(sysm, clock, ops, work, tier, probes, tr, distinct):
         text = stdout.getvalue()
         if tr is not None:
             tr.add("gen", g=g, inj=inj, via=via, mgr=mgr, verdict=verdict, pre=pre, changed=changed,
-                   events=sorted(set(f'{e[0]} {e[1]}' for e in mut_events)), spy=spy.calls, crashed=bool(crashed), wfault=wfault)
+                   events=sorted(set(f'{e[0]} {e[1] if (e[1] in a or e[1] in b or e[1] == ".") else "<transient path>"}' for e in mut_events)), spy=spy.calls, crashed=bool(crashed), wfault=wfault)
         if distinct is not None and before:
             distinct.add(short([g, inj if applied else None, in_module, verdict, pre, via, mgr, wfault[1] if wfault and rec.fired else None]))
         where = f"op {oi}: gen {g} via {via} ({mgr} manager), injected={inj if applied else None}, verdict={verdict}"
@@ -741,6 +748,8 @@ def _execute(sysm, clock, ops, work, tier, probes, tr, distinct):
                 while d_:
                     allowed_dirs.add(d_)
                     d_ = os.path.dirname(d_)
+            if any(os.sep in rp for rp in rel):
+                probes["returned_file_in_subdirectory"] += 1
             outside = [k for k in created_or_modified if k not in rel and k not in allowed_dirs]
             # events on paths the plug-in did not return count only if such a path exists before or after the command:
             # a transient file (write-to-temporary-then-rename) leaves exactly the returned files behind
